@@ -83,6 +83,7 @@ pub fn property(id: &str) -> Option<PropertyRun> {
                 Box::new(Campaign(problems::C09 { known_shapes: true })),
                 Box::new(Campaign(problems::Tptp4x)),
                 Box::new(Campaign(problems::WithOutline)),
+                Box::new(Campaign(problems::AcceptedNames)),
             ],
             assumptions: vec!["the checker's strict TFF reader and type checker are the oracle (acceptance cross-checked against tests/examples/tptp4X_linux)".into()],
         },
@@ -113,7 +114,7 @@ pub fn property(id: &str) -> Option<PropertyRun> {
         },
         "C15" => PropertyRun {
             id: id.into(),
-            parts: vec![Box::new(Campaign(roundtrip::C15)), Box::new(Campaign(roundtrip::C15Outputs)), Box::new(Campaign(roundtrip::C15TheoryOutputs)), Box::new(Campaign(roundtrip::FolFrontEnd)), Box::new(FuzzPart { target: "roundtrip_fol", runs_thorough: 150_000 })],
+            parts: vec![Box::new(Campaign(roundtrip::C15)), Box::new(Campaign(roundtrip::C15Outputs)), Box::new(Campaign(roundtrip::C15TheoryOutputs)), Box::new(Campaign(roundtrip::FolFrontEnd)), Box::new(Campaign(roundtrip::AcceptedNamesOutput)), Box::new(FuzzPart { target: "roundtrip_fol", runs_thorough: 150_000 })],
             assumptions: vec!["input text comes from the checker's own printer; trees outside the image of the parser are never required to round-trip".into()],
         },
         "C18" => PropertyRun {
